@@ -44,8 +44,8 @@ def divided_by(left: float | int, right: object) -> float | int:
     try:
         if isinstance(right, int) and isinstance(left, int):
             return left // right
-        return left / right
-    except ZeroDivisionError as err:
+        return float(decimal.Decimal(str(left)) / decimal.Decimal(str(right)))
+    except (ZeroDivisionError, decimal.DivisionByZero, decimal.InvalidOperation) as err:
         raise LiquidTypeError(f"can't divide by {right}", token=None) from err
 
 
